@@ -119,6 +119,12 @@ Definition wstep_core (fixed : bool) (w : world) (o : op) : world * wout :=
   | OStore so =>
       let '(e', out) := env_sop (w_env w) (a_view (w_alloc w)) (w_hs w) so in (with_env w e', out)
   | ODropWorld => (with_env w (env_drop_world (w_env w)), WUnit)
+  | OQuiet so =>
+      (with_env w (env_sop_quiet (w_env w) (a_view (w_alloc w)) (w_hs w) so), WUnit)
+  (* queueing a lazy action: the action itself is placed by World/Lazy.v after the next maintain *)
+  | OLazyInsert _ h _ | OLazyRemove _ h => (w, match hget (w_hs w) h with Some _ => WUnit | None => WSkip end)
+  | OLazyInsertAll _ l => (w, match hget_all (w_hs w) (map fst l) with Some _ => WUnit | None => WSkip end)
+  | OLazyExec _ => (w, WUnit)
   | OBad => (w, WSkip)
   end.
 
